@@ -48,6 +48,9 @@ def plan_of(mod, tier: str) -> dict[str, Any]:
     plan.setdefault("shards", 8)
     plan.setdefault("examples", 200)
     plan.setdefault("timeout", 1500 if tier == "quick" else 5400)
+    if tier == "thorough":
+        # the hard cap only guards against a hung shard; thorough campaigns are bounded by their case counts
+        plan["timeout"] = max(float(plan["timeout"]), 14400.0)
     return plan
 
 
